@@ -64,3 +64,40 @@ fn c19_dictionary_index_out_of_range() {
     let r = run(&vals, idx);
     kani::cover!(r.is_none() || idx == 2);
 }
+
+// @h name=c10_dictionary_reprepare props=C10 tier=quick
+/// One reader sees a dictionary page per row group: after `prepare_with_values(n, ..)` exactly
+/// the entries 0..n are values (and only the slot after them is the NULL marker), whatever
+/// dictionaries were loaded before. History: 3 entries, then 1, then 2.
+#[kani::proof]
+#[kani::unwind(6)]
+#[kani::stub(alloc::fmt::format, crate::kani_verif_support::stub_format)]
+#[kani::stub(std::backtrace::Backtrace::capture, crate::kani_verif_support::stub_backtrace)]
+#[kani::stub(crate::column::value_reader::ReaderErrorState::set_error_fn, crate::column::value_reader::kani_verif_support_reader::stub_set_error_flag)]
+fn c10_dictionary_reprepare() {
+    let d1: [i32; 3] = kani::any();
+    let d2: [i32; 1] = kani::any();
+    let d3: [i32; 2] = kani::any();
+    let idx: u8 = kani::any();
+    kani::assume(idx < 2);
+    let mut dict = ok(Dictionary::<PlainInt32ValueReader>::try_empty(&DefaultBufferManager, DataType::int32()));
+    assert!(is_ok_forget(dict.prepare_with_values(3, ReadCursor::from_slice(&d1))));
+    assert!(is_ok_forget(dict.prepare_with_values(1, ReadCursor::from_slice(&d2))));
+    assert!(is_ok_forget(dict.prepare_with_values(2, ReadCursor::from_slice(&d3))));
+    assert!(!error_reported());
+    let page = [0x04u8, idx];
+    let mut dec = DictionaryDecoder::<PlainInt32ValueReader>::new(RleBitPackedDecoder::new(ReadCursor::from_slice(&page), 8));
+    let mut out = ok(Array::new(&DefaultBufferManager, DataType::int32(), 2));
+    let good = is_ok_forget(dec.read(&dict, Definitions::NoDefinitions, &mut out, 0, 2));
+    assert!(good, "indices inside the current dictionary decode");
+    {
+        let (out_data, out_validity) = out.data_and_validity_mut();
+        let data = ok(PhysicalI32::get_addressable(out_data)).slice;
+        kani::cover!(idx == 1);
+        assert!(out_validity.is_valid(0) && out_validity.is_valid(1), "an entry of the current dictionary is not NULL");
+        assert!(data[0] == d3[idx as usize] && data[1] == d3[idx as usize], "rows come from the current dictionary");
+    }
+    core::mem::forget(out);
+    core::mem::forget(dec);
+    core::mem::forget(dict);
+}
